@@ -11,10 +11,8 @@ def run(chk, replay=None):
         "Coq 8.16.1 kernel; Print Assumptions closed for every theorem of Properties_C02_calc2.v",
         "extraction ExtrOcamlBasic only; ocaml/handlers/h_calc2.ml",
         "harness/k2v2.hpp (leaf op-states with logging destructors), tools/k2v2.py (batch-wise comparison of stop-callback order)",
-        "stage 6: stored values (let_value values_, finally value_, when_all values_, stop_when result_, when_any stores) are model "
-        "events TValCtor/TValDtor compared with k2v2::payload objects constructed in operation-state storage; stores of errors "
-        "(exception_ptr: let_error error_, finally error_) are modelled, not observed (let_error: destructor watch only); "
-        "lifetimes of callables / receivers / senders are not modelled"]
+        "modelled not verified: lifetimes of stored values / callables / receivers (only operation states of leaves and scheduler items are "
+        "tracked); throwing copies/connect/allocation are not in the model (callable throws are)"]
     chk.cov["rule"] = "K2v2: generated expressions x scripts; non-trivial = script with a stop or a non-value completion"
     chk.prove()
     fault_probe(chk)
